@@ -148,6 +148,26 @@ def Toc.markPersistent : Toc → Nat → Toc
     let (m', b) := markNames m ident
     if b then (g, m') :: r else (g, m) :: Toc.markPersistent r ident
 
+/-! ### `Toc` as a stateful object
+
+The only attribute of a `Toc` object is the dictionary `toc` (Gen: `tocAttrs`); it changes in exactly three
+ways: `add_element`, `clear()`, and a direct assignment `toc_holder.toc = table` - which is how `TocFetcher`
+installs a table found in the cache (Gen: `cacheInstall`).  The lookups read `self.toc` and nothing else. -/
+
+inductive TocOp
+  | add (e : Elem)          -- `add_element(e)`
+  | clear                   -- `clear()`
+  | install (t : Toc)       -- `toc.toc = t` (cache hit)
+  deriving Repr, DecidableEq
+
+def TocOp.apply (t : Toc) : TocOp → Toc
+  | .add e => t.add e
+  | .clear => []
+  | .install t' => t'
+
+/-- the dictionary of a `Toc()` object after a history of mutations (lookups in between do not change it) -/
+def tocAfter (ops : List TocOp) : Toc := ops.foldl TocOp.apply []
+
 /-! ## `TocFetcher` -/
 
 inductive FState
@@ -253,6 +273,23 @@ def Fetcher.onPacket (dec : Nat → Bytes → Except PyErr Elem) (f : Fetcher) (
           | .ok r => .ok ⟨{ f with toc := toc', req := f.req + 1 }, [r], false⟩
           | .error e => .error e
         else .ok ⟨{ f with toc := toc', st := .done }, [], true⟩
+
+/-- `TocFetcher._new_packet_cb` with a TOC cache: `cache crc` = what `TocCache.fetch(crc)` returns (None = none;
+an empty dict is falsy, so it counts as a miss).  On a hit in GET_TOC_INFO the cached dictionary is installed by
+direct assignment and the download is finished without any element request; everything else is `onPacket`.
+(`TocCache.insert` on the download path does not affect this object; what the cache returns is C11.) -/
+def Fetcher.onPacketC (dec : Nat → Bytes → Except PyErr Elem) (cache : Nat → Option Toc) (f : Fetcher) (chan : Nat)
+    (data : Bytes) : Except PyErr Step :=
+  if chan ≠ 0 then .ok ⟨f, [], false⟩ else
+  match f.st with
+  | .info =>
+    match unpackInfo f.v2 (data.drop Gen.C03.payloadDrop) with
+    | .error e => .error e
+    | .ok (n, c) =>
+      match cache c with
+      | some (g :: t) => .ok ⟨{ f with nbr := n, crc := c, toc := g :: t, st := .done }, [], true⟩
+      | _ => f.onPacket dec chan data
+  | _ => f.onPacket dec chan data
 
 /-- are the port callback and the `disconnected` callback registered? (`start` registers both,
 `_toc_fetch_finished` and `_disconnected` remove both) -/
